@@ -383,7 +383,18 @@ func forgedRequests(L int, pattern []int, seed uint64) {
 			name string
 			idx  int
 		}{"b", i})
+		// compensating alterations of two components (i and its cyclic successor): the product / sum over the vector is
+		// preserved.  a2, b2: altered before the proof is produced over the altered vectors; f2, d2, x2, y2: altered in the
+		// finished proof.  The proof binds every component separately, so all of them must be refused.
+		for _, nm := range []string{"a2", "b2", "f2", "d2", "x2", "y2"} {
+			lies = append(lies, struct {
+				name string
+				idx  int
+			}{nm, i})
+		}
 	}
+	g1Minus := func(p *math.G1) *math.G1 { q := p.Copy(); q.Sub(curve.GenG1); return q }
+	zrMinus := func(z *math.Zr) *math.Zr { return bigZr(new(big.Int).Sub(zrBig(z), big.NewInt(1))) }
 	for _, lie := range lies {
 		c := jCase{Kind: "case", Cls: "reqforge", L: L, Pat: pattern, Pert: lie.name, Idx: lie.idx, Path: "object"}
 		setRand(seed)
@@ -411,6 +422,10 @@ func forgedRequests(L int, pattern []int, seed uint64) {
 				b[lie.idx] = g1Plus(b[lie.idx])
 			case "rcm":
 				rcmProof = zrPlus(rcm)
+			case "a2":
+				a[lie.idx], a[(lie.idx+1)%len(a)] = g1Plus(a[lie.idx]), g1Minus(a[(lie.idx+1)%len(a)])
+			case "b2":
+				b[lie.idx], b[(lie.idx+1)%len(b)] = g1Plus(b[lie.idx]), g1Minus(b[(lie.idx+1)%len(b)])
 			}
 			v := ps.VerifPSProveBlinding(curve, msg, r, a, b, rcmProof, P.G, P.G0, h, u, cm, P.Gs)
 			if lie.name == "sim" {
@@ -430,6 +445,17 @@ func forgedRequests(L int, pattern []int, seed uint64) {
 					v.S.Add(P.Gs[i].Mul(v.Y[i]))
 				}
 				v.S.Sub(cm)
+			}
+			j := (lie.idx + 1) % len(msg)
+			switch lie.name {
+			case "f2":
+				v.F[lie.idx], v.F[j] = g1Plus(v.F[lie.idx]), g1Minus(v.F[j])
+			case "d2":
+				v.D[lie.idx], v.D[j] = g1Plus(v.D[lie.idx]), g1Minus(v.D[j])
+			case "x2":
+				v.X[lie.idx], v.X[j] = zrPlus(v.X[lie.idx]), zrMinus(v.X[j])
+			case "y2":
+				v.Y[lie.idx], v.Y[j] = zrPlus(v.Y[lie.idx]), zrMinus(v.Y[j])
 			}
 			v.CM, v.MPrime, v.U, v.A, v.B = oldCM, mPrime, u, a, b
 			bs = v.BlindSignature()
